@@ -43,6 +43,10 @@ pub const CAPS_BIG: [usize; 18] = [0, 16, 31, 32, 33, 47, 63, 64, 65, 96, 127, 1
 
 pub fn program(s: &Shape17) -> Program {
     let mut ops = vec![Op::Commit { v: ScalarSpec::Small(5), blind: ScalarSpec::Rand(3) }];
+    // further commitments (1, 3, 5 or 7 in all): their number has no bearing on the threshold
+    for j in 0..((s.n1 * 3 + s.n2) % 4) * 2 {
+        ops.push(Op::Commit { v: ScalarSpec::Small(j as u64), blind: ScalarSpec::Small(7 + j as u64) });
+    }
     // first-phase gates through all three allocation paths
     let mut made = 0;
     let mut i = 0u64;
@@ -169,6 +173,28 @@ fn shape_case<G: CurveTag>(s: &Shape17, col: &mut Collector) -> Result<(), Failu
                 col.nontrivial(fp_of(&(s, mode, cap_v)));
             }
         }
+    }
+    // a generator object that holds more than its capacity field says: the field is the capacity
+    if need >= 2 {
+        let low = need / 2;
+        col.evals_add(2);
+        let pu = run_prover::<G>(&prog, &ProveOpts { cap: Some(low), real_cap: Some(2 * need), ..Default::default() });
+        if pu.panic.is_some() || !matches!(pu.err, Some(R1CSError::InvalidGeneratorsLength)) {
+            return Err(Failure::new(
+                "C17:prove-understated-object",
+                format!("prove with a generator object of declared capacity {} (holding {}) for threshold {} gave {:?} / panic {:?} instead of InvalidGeneratorsLength", low, 2 * need, need, pu.err, pu.panic),
+                what(json!({"cap_p": low, "held": 2 * need})),
+            ));
+        }
+        let vu = run_verifier::<G>(&prog, &p.commitments, proof, &VerifyOpts { cap: Some(low), real_cap: Some(2 * need), ..Default::default() });
+        if vu.panic.is_some() || vu.result != Some(Err(R1CSError::InvalidGeneratorsLength)) {
+            return Err(Failure::new(
+                "C17:verify-understated-object",
+                format!("verify with a generator object of declared capacity {} (holding {}) for threshold {} gave {:?} / panic {:?} instead of InvalidGeneratorsLength", low, 2 * need, need, vu.result, vu.panic),
+                what(json!({"cap_v": low, "held": 2 * need})),
+            ));
+        }
+        col.class("understated-generator-object");
     }
     // malformed proofs: the capacity answer comes first whatever the proof looks like, and a
     // malformed proof under sufficient capacity fails for its own reason, not for the generators
